@@ -57,13 +57,18 @@ Record hinv (T : topo) (U : univ) (M : Z) (h : hstate) : Prop := {
   hi_root : forall sd k x, hp h sd k x = true -> hp h sd 0 x = true;
   hi_level : forall sd k x, hp h sd k x = true -> k <= nkids T sd;
   hi_linv : forall p, p < npairs T -> linv U (view T p h);
-  hi_rinv : forall p, p < npairs T -> rinv M (view T p h) }.
+  hi_rinv : forall p, p < npairs T -> rinv M (view T p h);
+  (* a kind of collection that was not registered for a pair never holds anything for it *)
+  hi_plain : forall p, p < npairs T -> has_plain T p = false -> forall sd a b, hl h p sd a b = false;
+  hi_rc : forall p, p < npairs T -> has_rc T p = false -> forall sd a b, hr h p sd a b = None }.
 
 Lemma hinv_init : forall T U M, hinv T U M hinit.
 Proof.
   intros. constructor; simpl; try discriminate.
   - intros. constructor; simpl; intros; discriminate.
   - intros. constructor; simpl; intros; discriminate.
+  - intros; reflexivity.
+  - intros; reflexivity.
 Qed.
 
 Lemma hinv_mono : forall T U M M' h, (M <= M')%Z -> hinv T U M h -> hinv T U M' h.
@@ -89,14 +94,35 @@ Proof.
   - apply rc_set_frame in E. tauto.
 Qed.
 
+(* an operation of one kind of collection leaves the buckets of the other kind alone *)
+Lemma rc_op_lnk : forall U o s s', is_rc_op o = true -> step U o s = Done s' -> lnk s' = lnk s.
+Proof.
+  intros U o s s' L E. destruct o; simpl in *; try discriminate.
+  - apply rc_incr_frame in E. tauto.
+  - apply rc_decr_frame in E. tauto.
+  - apply rc_set_frame in E. tauto.
+Qed.
+
+Lemma plain_op_rc : forall U o s s', is_link_op o = true -> is_rc_op o = false -> step U o s = Done s' -> rc s' = rc s.
+Proof.
+  intros U o s s' L R E. destruct o; simpl in *; try discriminate.
+  - apply add_links_frame in E. tauto.
+  - unfold remove_links in E. destruct (pres s sd a); [|discriminate]. inversion E.
+    destruct (unlink_all_spec sd a keys s) as (_ & Hr & _). exact Hr.
+  - apply set_links_frame in E. tauto.
+  - apply add_link_as_all, add_links_frame in E. tauto.
+  - unfold remove_link in E. destruct (pres s sd a); [|discriminate]. inversion E.
+    destruct (unlink_all_spec sd a [k] s) as (_ & Hr & _). exact Hr.
+Qed.
+
 Lemma link_op_in : forall U o, is_link_op o = true -> op_in U o.
 Proof. intros U o L. destruct o; simpl in *; try discriminate; exact I. Qed.
 
 Lemma hstep_link_inv : forall T U M p o h s', hinv T U M h -> p < npairs T -> is_link_op o = true ->
-  op_count_ok o -> (0 <= M)%Z -> (op_bound M o <= max_int32)%Z ->
+  op_registered T p o = true -> op_count_ok o -> (0 <= M)%Z -> (op_bound M o <= max_int32)%Z ->
   step U o (view T p h) = Done s' -> hinv T U (op_bound M o) (put p s' h).
 Proof.
-  intros T U M p o h s' I Hp L Hok HM Hb E.
+  intros T U M p o h s' I Hp L Reg Hok HM Hb E.
   pose proof (link_op_pres _ _ _ _ L E) as Ep.
   constructor.
   - apply (hi_root _ _ _ _ I).
@@ -108,6 +134,14 @@ Proof.
     + rewrite view_put_eq by exact Ep.
       eapply step_rinv; [apply (hi_linv _ _ _ _ I); exact Hp | apply (hi_rinv _ _ _ _ I); exact Hp | | | | exact E]; assumption.
     + rewrite view_put_other by exact N. eapply rinv_mono; [apply op_bound_ge | apply (hi_rinv _ _ _ _ I); exact Hq].
+  - intros q Hq Hk sd a b. simpl. destruct (q =? p) eqn:Eq; [|apply (hi_plain _ _ _ _ I); assumption].
+    apply Nat.eqb_eq in Eq. subst q. unfold op_registered in Reg.
+    destruct (is_rc_op o) eqn:R; [|congruence].
+    rewrite (rc_op_lnk _ _ _ _ R E). simpl. apply (hi_plain _ _ _ _ I); assumption.
+  - intros q Hq Hk sd a b. simpl. destruct (q =? p) eqn:Eq; [|apply (hi_rc _ _ _ _ I); assumption].
+    apply Nat.eqb_eq in Eq. subst q. unfold op_registered in Reg.
+    destruct (is_rc_op o) eqn:R; [congruence|].
+    rewrite (plain_op_rc _ _ _ _ L R E). simpl. apply (hi_rc _ _ _ _ I); assumption.
 Qed.
 
 (* ---- create ---------------------------------------------------------------------------------------------------- *)
@@ -150,6 +184,8 @@ Proof.
   - intros q Hq. destruct (CELL q Hq) as [(s1 & E1 & S)|S].
     + eapply rinv_same; [exact S|]. eapply rinv_create; [apply (hi_rinv _ _ _ _ I); exact Hq | exact E1].
     + eapply rinv_same; [exact S|]. apply (hi_rinv _ _ _ _ I). exact Hq.
+  - apply (hi_plain _ _ _ _ I).
+  - apply (hi_rc _ _ _ _ I).
 Qed.
 
 (* ---- delete: the loops ------------------------------------------------------------------------------------------ *)
@@ -185,35 +221,79 @@ Proof. intros. unfold mid2. destruct (rc_unlink_peers_spec sd x (rc_rows U s sd 
 Lemma delete_mid_eq : forall U sd x s, delete_mid U sd x s = mid2 U sd x (mid1 U sd x s).
 Proof. reflexivity. Qed.
 
-(* cleanupLinks of a store that holds the entity: every pair of the store sees EntityDeleted of both kinds *)
+(* EntityDeleted of a collection whose bucket of the entity is empty changes nothing *)
+Lemma rows_empty : forall U s sd x, (forall b, lnk s sd x b = false) -> rows U s sd x = [].
+Proof.
+  intros U s sd x H. unfold rows. induction (uni U (other sd)) as [|k t IH]; simpl; [reflexivity|].
+  rewrite H. exact IH.
+Qed.
+Lemma rc_rows_empty : forall U s sd x, (forall b, rc s sd x b = None) -> rc_rows U s sd x = [].
+Proof.
+  intros U s sd x H. unfold rc_rows. induction (uni U (other sd)) as [|k t IH]; simpl; [reflexivity|].
+  rewrite H. simpl. exact IH.
+Qed.
+Lemma mid1_empty : forall U sd x s, (forall b, lnk s sd x b = false) -> mid1 U sd x s = s.
+Proof. intros. unfold mid1. rewrite rows_empty by assumption. reflexivity. Qed.
+Lemma mid2_empty : forall U sd x s, (forall b, rc s sd x b = None) -> mid2 U sd x s = s.
+Proof. intros. unfold mid2. rewrite rc_rows_empty by assumption. reflexivity. Qed.
+Lemma mid1_rc : forall U sd x s, rc (mid1 U sd x s) = rc s.
+Proof. intros. unfold mid1. destruct (unlink_peers_spec sd x (rows U s sd x) s) as (_ & H & _). exact H. Qed.
+
+Lemma link_pairs_In : forall T sd k q, In q (link_pairs T sd k) <-> In q (store_pairs T sd k) /\ has_plain T q = true.
+Proof. intros. unfold link_pairs. apply filter_In. Qed.
+Lemma rc_pairs_In : forall T sd k q, In q (rc_pairs T sd k) <-> In q (store_pairs T sd k) /\ has_rc T q = true.
+Proof. intros. unfold rc_pairs. apply filter_In. Qed.
+
+(* cleanupLinks of a store that holds the entity: every pair of the store sees EntityDeleted of the
+   kinds that are registered for it; for a kind that is not registered the bucket is empty, so the
+   pair ends as if EntityDeleted of both kinds had run *)
 Lemma cleanup_links_present : forall T U sd k x h, hp h sd k x = true ->
+  (forall q, In q (store_pairs T sd k) -> has_plain T q = false -> forall b, hl h q sd x b = false) ->
+  (forall q, In q (store_pairs T sd k) -> has_rc T q = false -> forall b, hr h q sd x b = None) ->
   exists h', cleanup_links T U sd k x h = HDone h' /\ hp h' = hp h /\
     (forall q, In q (store_pairs T sd k) -> view T q h' = delete_mid U sd x (view T q h)) /\
     (forall q, ~ In q (store_pairs T sd k) -> view T q h' = view T q h).
 Proof.
-  intros T U sd k x h Hx. unfold cleanup_links.
-  destruct (hfold_cells T (entity_deleted U sd x) (mid1 U sd x) (store_pairs T sd k) (store_pairs_NoDup T sd k) (mid1_pres U sd x) h)
+  intros T U sd k x h Hx KL KR. unfold cleanup_links.
+  destruct (hfold_cells T (entity_deleted U sd x) (mid1 U sd x) (link_pairs T sd k)
+              (NoDup_filter _ (store_pairs_NoDup T sd k)) (mid1_pres U sd x) h)
     as (h1 & E1 & Hp1 & In1 & Out1).
-  { intros p Hp. apply store_pairs_In in Hp. destruct Hp as [_ Hl]. unfold entity_deleted. simpl. rewrite Hl, Hx. reflexivity. }
+  { intros p Hp. apply link_pairs_In in Hp. destruct Hp as [Hp _]. apply store_pairs_In in Hp. destruct Hp as [_ Hl].
+    unfold entity_deleted. simpl. rewrite Hl, Hx. reflexivity. }
   rewrite E1. simpl.
-  destruct (hfold_cells T (rc_entity_deleted U sd x) (mid2 U sd x) (store_pairs T sd k) (store_pairs_NoDup T sd k) (mid2_pres U sd x) h1)
+  destruct (hfold_cells T (rc_entity_deleted U sd x) (mid2 U sd x) (rc_pairs T sd k)
+              (NoDup_filter _ (store_pairs_NoDup T sd k)) (mid2_pres U sd x) h1)
     as (h2 & E2 & Hp2 & In2 & Out2).
-  { intros p Hp. rewrite (In1 p Hp). apply store_pairs_In in Hp. destruct Hp as [_ Hl].
-    unfold rc_entity_deleted. rewrite mid1_pres. simpl. rewrite Hl, Hx. reflexivity. }
+  { intros p Hp. apply rc_pairs_In in Hp. destruct Hp as [Hp _]. apply store_pairs_In in Hp. destruct Hp as [_ Hl].
+    unfold rc_entity_deleted, mid2. simpl. rewrite Hp1, Hl, Hx. reflexivity. }
+  assert (V1 : forall q, In q (store_pairs T sd k) -> view T q h1 = mid1 U sd x (view T q h)).
+  { intros q Hq. destruct (has_plain T q) eqn:K.
+    - apply In1. apply link_pairs_In. auto.
+    - rewrite Out1 by (rewrite link_pairs_In; intros [_ F]; congruence).
+      symmetry. apply mid1_empty. intros b. simpl. apply KL; assumption. }
+  assert (V2 : forall q, In q (store_pairs T sd k) -> view T q h2 = mid2 U sd x (view T q h1)).
+  { intros q Hq. destruct (has_rc T q) eqn:K.
+    - apply In2. apply rc_pairs_In. auto.
+    - rewrite Out2 by (rewrite rc_pairs_In; intros [_ F]; congruence).
+      symmetry. apply mid2_empty. intros b. rewrite (V1 q Hq), mid1_rc. simpl. apply KR; assumption. }
   exists h2. split; [exact E2|]. split; [congruence|]. split.
-  - intros q Hq. rewrite (In2 q Hq), (In1 q Hq). reflexivity.
-  - intros q Hq. rewrite (Out2 q Hq), (Out1 q Hq). reflexivity.
+  - intros q Hq. rewrite (V2 q Hq), (V1 q Hq). reflexivity.
+  - intros q Hq. rewrite Out2 by (rewrite rc_pairs_In; tauto). apply Out1. rewrite link_pairs_In. tauto.
 Qed.
 
 (* ... of a store that does not hold it: EntityDeleted of its first collection fails *)
 Lemma cleanup_links_absent : forall T U sd k x h h', hp h sd k x = false ->
-  cleanup_links T U sd k x h = HDone h' -> store_pairs T sd k = [] /\ h' = h.
+  cleanup_links T U sd k x h = HDone h' -> owned T sd k = [] /\ h' = h.
 Proof.
-  intros T U sd k x h h' Hx. unfold cleanup_links.
-  destruct (store_pairs T sd k) as [|p t] eqn:SP; simpl.
-  - intros E. inversion E. auto.
-  - assert (Hp : In p (store_pairs T sd k)) by (rewrite SP; left; reflexivity).
-    apply store_pairs_In in Hp. destruct Hp as [_ Hl].
+  intros T U sd k x h h' Hx. unfold cleanup_links, owned.
+  destruct (link_pairs T sd k) as [|p t] eqn:SP; simpl.
+  - destruct (rc_pairs T sd k) as [|p t] eqn:SR; simpl.
+    + intros E. inversion E. auto.
+    + assert (Hp : In p (rc_pairs T sd k)) by (rewrite SR; left; reflexivity).
+      apply rc_pairs_In in Hp. destruct Hp as [Hp _]. apply store_pairs_In in Hp. destruct Hp as [_ Hl].
+      unfold cell_apply at 1, rc_entity_deleted. simpl. rewrite Hl, Hx. simpl. discriminate.
+  - assert (Hp : In p (link_pairs T sd k)) by (rewrite SP; left; reflexivity).
+    apply link_pairs_In in Hp. destruct Hp as [Hp _]. apply store_pairs_In in Hp. destruct Hp as [_ Hl].
     unfold cell_apply at 1, entity_deleted. simpl. rewrite Hl, Hx. simpl. discriminate.
 Qed.
 
@@ -235,12 +315,23 @@ Proof.
   - intros N. apply C2. intros [Pj Hx]. apply N. split; [left; exact Pj | exact Hx].
 Qed.
 
-Lemma cleaned_add_present : forall T U sd x P k h0 h h', cleaned T U sd x P h0 h -> ~ P k ->
+Definition kind_empty (T : topo) (h : hstate) : Prop :=
+  (forall q, q < npairs T -> has_plain T q = false -> forall sd a b, hl h q sd a b = false) /\
+  (forall q, q < npairs T -> has_rc T q = false -> forall sd a b, hr h q sd a b = None).
+
+Lemma cleaned_add_present : forall T U sd x P k h0 h h', kind_empty T h0 -> cleaned T U sd x P h0 h -> ~ P k ->
   hp h0 sd k x = true -> cleanup_links T U sd k x h = HDone h' ->
   cleaned T U sd x (fun j => P j \/ j = k) h0 h'.
 Proof.
-  intros T U sd x P k h0 h h' [Hp C] NP Hk E.
-  destruct (cleanup_links_present T U sd k x h) as (h2 & E2 & Hp2 & In2 & Out2); [rewrite Hp; exact Hk|].
+  intros T U sd x P k h0 h h' [KL KR] [Hp C] NP Hk E.
+  assert (V0 : forall q, In q (store_pairs T sd k) -> view T q h = view T q h0).
+  { intros q Hq. apply store_pairs_In in Hq. destruct Hq as [Hq El]. destruct (C q Hq) as [_ C2].
+    apply C2. intros [Pj _]. rewrite El in Pj. contradiction. }
+  destruct (cleanup_links_present T U sd k x h) as (h2 & E2 & Hp2 & In2 & Out2); [rewrite Hp; exact Hk | | |].
+  { intros q Hq K b. change (lnk (view T q h) sd x b = false). rewrite (V0 q Hq). simpl.
+    apply KL; [apply store_pairs_In in Hq; tauto | exact K]. }
+  { intros q Hq K b. change (rc (view T q h) sd x b = None). rewrite (V0 q Hq). simpl.
+    apply KR; [apply store_pairs_In in Hq; tauto | exact K]. }
   rewrite E in E2. inversion E2. subst h2. clear E2.
   split; [congruence|]. intros q Hq. destruct (C q Hq) as [C1 C2].
   destruct (Nat.eq_dec (lvl T q sd) k) as [El|Nl].
@@ -262,11 +353,11 @@ Proof.
   - intros N. apply C2. intros [Pj Hx]. apply N. split; [apply PQ; exact Pj | exact Hx].
 Qed.
 
-Lemma children_cleanup_spec : forall T U sd x h0 ks P h h', NoDup ks -> (forall k, In k ks -> ~ P k) ->
+Lemma children_cleanup_spec : forall T U sd x h0, kind_empty T h0 -> forall ks P h h', NoDup ks -> (forall k, In k ks -> ~ P k) ->
   cleaned T U sd x P h0 h -> children_cleanup T U sd x ks h = HDone h' ->
   cleaned T U sd x (fun j => P j \/ In j ks) h0 h'.
 Proof.
-  intros T U sd x h0 ks. induction ks as [|k t IH]; intros P h h' ND NP C E; simpl in E.
+  intros T U sd x h0 KE ks. induction ks as [|k t IH]; intros P h h' ND NP C E; simpl in E.
   - inversion E. subst. eapply cleaned_ext; [|exact C]. intros j. simpl. tauto.
   - inversion ND as [|? ? Hnot ND']; subst.
     assert (NPk : ~ P k) by (apply NP; left; reflexivity).
@@ -307,10 +398,11 @@ Proof.
   destruct (children_cleanup T U sd x (seq 1 (nkids T sd)) h) as [h1| |] eqn:E1; simpl; try discriminate.
   destruct (cleanup_links T U sd 0 x h1) as [h2| |] eqn:E2; simpl; try discriminate.
   intros E. inversion E. clear E. subst h'.
-  pose proof (children_cleanup_spec T U sd x h (seq 1 (nkids T sd)) (fun _ => False) h h1 (seq_NoDup _ _)
+  assert (KE : kind_empty T h) by (split; [apply (hi_plain _ _ _ _ I) | apply (hi_rc _ _ _ _ I)]).
+  pose proof (children_cleanup_spec T U sd x h KE (seq 1 (nkids T sd)) (fun _ => False) h h1 (seq_NoDup _ _)
                 (fun _ _ F => F) (cleaned_start T U sd x h) E1) as C1.
   assert (C2 : cleaned T U sd x (fun j => (False \/ In j (seq 1 (nkids T sd))) \/ j = 0) h h2).
-  { eapply cleaned_add_present; [exact C1 | | exact H0 | exact E2]. intros [[]|F]. apply in_seq in F. lia. }
+  { eapply cleaned_add_present; [exact KE | exact C1 | | exact H0 | exact E2]. intros [[]|F]. apply in_seq in F. lia. }
   destruct C2 as [Hp C2].
   split; [reflexivity|]. split.
   - intros. simpl. rewrite Hp. reflexivity.
@@ -370,6 +462,20 @@ Proof.
   - intros sd' k x'. rewrite Hp. destruct (at2 sd x sd' x'); [discriminate|]. apply (hi_level _ _ _ _ I).
   - intros q Hq. apply CELL. exact Hq.
   - intros q Hq. apply CELL. exact Hq.
+  - intros q Hq K sd' a b. destruct (C q Hq) as [CA CB].
+    pose proof (hi_plain _ _ _ _ I q Hq K) as E0.
+    change (lnk (view T q h') sd' a b = false).
+    destruct (hp h sd (lvl T q sd) x) eqn:Hx.
+    + destruct (CA eq_refl) as (_ & Sl & _). rewrite Sl, (delete_lnk _ _ _ _ (hi_linv _ _ _ _ I q Hq)). simpl.
+      rewrite E0. apply andb_false_r.
+    + destruct (CB eq_refl) as (_ & Sl & _). rewrite Sl. simpl. rewrite E0. destruct (at2 sd x sd' a); reflexivity.
+  - intros q Hq K sd' a b. destruct (C q Hq) as [CA CB].
+    pose proof (hi_rc _ _ _ _ I q Hq K) as E0.
+    change (rc (view T q h') sd' a b = None).
+    destruct (hp h sd (lvl T q sd) x) eqn:Hx.
+    + destruct (CA eq_refl) as (_ & _ & Sr). rewrite Sr, (delete_rc _ _ _ _ _ (hi_linv _ _ _ _ I q Hq) (hi_rinv _ _ _ _ I q Hq)). simpl.
+      rewrite E0. destruct (_ || _); reflexivity.
+    + destruct (CB eq_refl) as (_ & _ & Sr). rewrite Sr. simpl. rewrite E0. destruct (at2 sd x sd' a); reflexivity.
 Qed.
 
 (* ---- one operation, transactions, histories ------------------------------------------------------------- *)
@@ -397,6 +503,7 @@ Proof.
   - eapply hdelete_inv; eauto.
   - destruct (p <? npairs T) eqn:Hp; simpl in E; [|discriminate].
     destruct (is_link_op o) eqn:L; simpl in E; [|discriminate].
+    destruct (op_registered T p o) eqn:Reg; simpl in E; [|discriminate].
     apply Nat.ltb_lt in Hp. unfold cell_apply in E.
     destruct (step U o (view T p h)) as [s'| |] eqn:E1; simpl in E; try discriminate.
     inversion E. eapply hstep_link_inv; eauto.
@@ -523,16 +630,36 @@ Qed.
 
 (* ---- the delete succeeds unless an Extended child store that owns a collection has no data for the entity *)
 
-Lemma cleanup_links_ok : forall T U sd k x h, hp h sd k x = true \/ store_pairs T sd k = [] ->
+Lemma hfold_done : forall T f ps h,
+  (forall p h1, In p ps -> hp h1 = hp h -> exists s, f (view T p h1) = Done s) ->
+  exists h', hfold (cell_apply T f) ps h = HDone h' /\ hp h' = hp h.
+Proof.
+  intros T f ps. induction ps as [|p t IH]; intros h H; simpl.
+  - exists h. auto.
+  - destruct (H p h (or_introl eq_refl) eq_refl) as (s & E). unfold cell_apply at 1. rewrite E. simpl.
+    destruct (IH (put p s h)) as (h' & E' & Hp').
+    { intros q h1 Hq Eh. apply H; [right; exact Hq | rewrite Eh; reflexivity]. }
+    exists h'. split; [exact E' | rewrite Hp'; reflexivity].
+Qed.
+
+Lemma cleanup_links_ok : forall T U sd k x h, hp h sd k x = true \/ owned T sd k = [] ->
   exists h', cleanup_links T U sd k x h = HDone h' /\ hp h' = hp h.
 Proof.
   intros T U sd k x h [Hx|Hs].
-  - destruct (cleanup_links_present T U sd k x h Hx) as (h' & E & Hp & _). exists h'. auto.
-  - exists h. unfold cleanup_links. rewrite Hs. simpl. auto.
+  - unfold cleanup_links.
+    destruct (hfold_done T (entity_deleted U sd x) (link_pairs T sd k) h) as (h1 & E1 & Hp1).
+    { intros p h1 Hp Eh. apply link_pairs_In in Hp. destruct Hp as [Hp _]. apply store_pairs_In in Hp. destruct Hp as [_ Hl].
+      unfold entity_deleted. simpl. rewrite Eh, Hl, Hx. eexists. reflexivity. }
+    rewrite E1. simpl.
+    destruct (hfold_done T (rc_entity_deleted U sd x) (rc_pairs T sd k) h1) as (h2 & E2 & Hp2).
+    { intros p h2 Hp Eh. apply rc_pairs_In in Hp. destruct Hp as [Hp _]. apply store_pairs_In in Hp. destruct Hp as [_ Hl].
+      unfold rc_entity_deleted. simpl. rewrite Eh, Hp1, Hl, Hx. eexists. reflexivity. }
+    exists h2. split; [exact E2 | congruence].
+  - exists h. unfold cleanup_links. unfold owned in Hs. apply app_eq_nil in Hs. destruct Hs as [-> ->]. simpl. auto.
 Qed.
 
 Lemma children_cleanup_ok : forall T U sd x ks h,
-  (forall k, In k ks -> is_ext T sd k = true -> hp h sd k x = true \/ store_pairs T sd k = []) ->
+  (forall k, In k ks -> is_ext T sd k = true -> hp h sd k x = true \/ owned T sd k = []) ->
   exists h', children_cleanup T U sd x ks h = HDone h' /\ hp h' = hp h.
 Proof.
   intros T U sd x ks. induction ks as [|k t IH]; intros h H; simpl.
@@ -558,9 +685,9 @@ Proof.
   destruct (children_cleanup_ok T U sd x (seq 1 (nkids T sd)) h) as (h1 & E1 & Hp1).
   { intros k Hk Ek. unfold ext_blocked in B.
     destruct (hp h sd k x) eqn:Hx; [left; reflexivity|]. right.
-    destruct (store_pairs T sd k) as [|p t] eqn:Sp; [reflexivity|]. exfalso.
+    destruct (owned T sd k) as [|p t] eqn:Sp; [reflexivity|]. exfalso.
     assert (F : existsb (fun k => is_ext T sd k && negb (hp h sd k x) &&
-                  match store_pairs T sd k with [] => false | _ => true end) (seq 1 (nkids T sd)) = true).
+                  match owned T sd k with [] => false | _ => true end) (seq 1 (nkids T sd)) = true).
     { apply existsb_exists. exists k. split; [exact Hk|]. rewrite Ek, Hx, Sp. reflexivity. }
     congruence. }
   rewrite E1. simpl.
@@ -572,12 +699,12 @@ Qed.
 Lemma cleanup_links_hp : forall T U sd k x h h', cleanup_links T U sd k x h = HDone h' -> hp h' = hp h.
 Proof.
   intros T U sd k x h h' E. destruct (hp h sd k x) eqn:Hx.
-  - destruct (cleanup_links_present T U sd k x h Hx) as (h2 & E2 & Hp & _). congruence.
+  - destruct (cleanup_links_ok T U sd k x h (or_introl Hx)) as (h2 & E2 & Hp). congruence.
   - apply cleanup_links_absent in E; [|exact Hx]. destruct E as [_ ->]. reflexivity.
 Qed.
 
 Lemma children_cleanup_blocked : forall T U sd x ks h h',
-  (exists k, In k ks /\ is_ext T sd k = true /\ hp h sd k x = false /\ store_pairs T sd k <> []) ->
+  (exists k, In k ks /\ is_ext T sd k = true /\ hp h sd k x = false /\ owned T sd k <> []) ->
   children_cleanup T U sd x ks h <> HDone h'.
 Proof.
   intros T U sd x ks. induction ks as [|k0 t IH]; intros h h' (k & Hk & Ek & Hx & Sp) E; simpl in *; [contradiction|].
@@ -636,3 +763,20 @@ Proof.
   - intros k. destruct (hp h sd k x) eqn:E; [|reflexivity]. apply (hi_root _ _ _ _ I) in E. congruence.
   - apply (hinv_absent_lemma _ _ _ _ I). exact H0.
 Qed.
+
+(* ---- kinds of collection ---------------------------------------------------------------------------------------- *)
+
+(* a kind of collection that the stores of a pair did not register holds nothing for the pair, in every
+   state a history reaches; its operations are refused *)
+Lemma hier_kinds_lemma : forall T U hs, hhist_in U hs -> hhist_counts_ok hs -> (hhist_bound 0 hs <= max_int32)%Z ->
+  let h := run_hhist T U hs hinit in
+  forall p, p < npairs T ->
+  (has_plain T p = false -> forall sd a b, hl h p sd a b = false) /\
+  (has_rc T p = false -> forall sd a b, hr h p sd a b = None).
+Proof.
+  intros T U hs H1 H2 H3 h p Hp. pose proof (hier_reachable_lemma T U hs H1 H2 H3) as I. fold h in I.
+  split; [apply (hi_plain _ _ _ _ I) | apply (hi_rc _ _ _ _ I)]; exact Hp.
+Qed.
+
+Lemma hstep_unregistered_lemma : forall T U p o h, op_registered T p o = false -> hstep T U (HLink p o) h = HFailed.
+Proof. intros T U p o h R. simpl. rewrite R, andb_false_r. reflexivity. Qed.
